@@ -109,6 +109,7 @@ func build(c caseT) (*world, error) {
 		"d.zone.test. 300 IN DNAME tgt.zone.test.",
 		"x.tgt.zone.test. 300 IN A 192.0.2.82",
 		"mail.zone.test. 300 IN MX 10 www.zone.test.",
+		"x.ent.wild.zone.test. 300 IN A 192.0.2.84", // makes ent.wild.zone.test. an empty non-terminal
 	)
 	w.qtype = dns.TypeA
 	switch c.QK {
@@ -124,6 +125,8 @@ func build(c caseT) (*world, error) {
 		w.qname = "nope.zone.test."
 	case "dname":
 		w.qname = "x.d.zone.test."
+	case "ent":
+		w.qname = "ent.wild.zone.test."
 	}
 	w.rogue = authkit.NewKey(zoneName, 0)
 	if c.Tamper["dnskey"] == "clonetag" && w.zone.Key0() != nil {
@@ -496,6 +499,37 @@ func (w *world) hookFor(pos, kind string, count *int) (*authkit.Server, func(*au
 				ex.Resp.Rcode = dns.RcodeNameError
 				ex.Resp.Answer = nil
 				ex.Resp.Ns = ns
+			case "wildrep":
+				// over an empty non-terminal: the zone's genuine wildcard expansion (as any name under
+				// wild.zone.test. that does not exist would get it) re-owned to the asked name, next to the
+				// genuine NSEC/NSEC3 records of the honest NODATA (for NSEC: the interval that spans the name
+				// and ends below it)
+				if w.qname != "ent.wild.zone.test." {
+					*count--
+					return
+				}
+				exp, _ := w.zone.Answer(dns.Question{Name: "zz.wild." + zoneName, Qtype: w.qtype, Qclass: dns.ClassINET}, true)
+				if exp == nil || len(exp.Answer) == 0 {
+					return
+				}
+				var ans, ns []dns.RR
+				for _, rr := range exp.Answer {
+					cp := dns.Copy(rr)
+					cp.Header().Name = w.qname
+					ans = append(ans, cp)
+				}
+				for _, rr := range ex.Resp.Ns {
+					if rr.Header().Rrtype == dns.TypeSOA {
+						continue
+					}
+					if s, ok := rr.(*dns.RRSIG); ok && s.TypeCovered == dns.TypeSOA {
+						continue
+					}
+					ns = append(ns, rr)
+				}
+				ex.Resp.Rcode = dns.RcodeSuccess
+				ex.Resp.Answer = ans
+				ex.Resp.Ns = ns
 			case "fakedname":
 				// the answer becomes a forged CNAME with a junk signature naming the real signer, "justified"
 				// by an unsigned DNAME that the signed zone's PARENT would own, in the authority section
@@ -557,7 +591,7 @@ func zoneSigned(k string) bool { return k == "signed" || k == "signed-same" || k
 
 func effectiveAt(c caseT, pos string) bool {
 	kind := c.Tamper[pos]
-	needsProof := c.QK == "nodata" || c.QK == "nx" || c.QK == "wild"
+	needsProof := c.QK == "nodata" || c.QK == "nx" || c.QK == "wild" || c.QK == "ent"
 	switch {
 	case kind == "" || kind == "none" || kind == "clonetag":
 		return false
@@ -571,6 +605,8 @@ func effectiveAt(c caseT, pos string) bool {
 		return zoneSigned(c.Zone)
 	case pos == "answer" && (kind == "dropproof" || kind == "foreignproof"):
 		return zoneSigned(c.Zone) && needsProof
+	case pos == "answer" && kind == "wildrep":
+		return zoneSigned(c.Zone) && c.QK == "ent"
 	case pos == "answer" && kind == "inject":
 		return zoneSigned(c.Zone) // unsigned zone: the foreign RRset is filtered (C07), the honest rest is served
 	case pos == "answer":
